@@ -297,6 +297,44 @@ def directed(ctx):
         sys.stderr = old_err
 
 
+def dgram_faults(ctx):
+    """Faults in UDP / DNS flows, driven through the REAL server.main loop and the real client handlers by the
+    datagram engine of C10/C11: after the fault, later messages for the same flow (another datagram, the close sent
+    at expiry) must not end either process."""
+    import dgram_engine as E
+    T = 30 * E.TICKS
+    u = 'cudp 2 10.0.0.5|4001 5.6.7.8|99 %s'
+    q = 'cdns 2 10.0.0.5|4000 9.9.9.9|53 %s'
+    cfg_u = 'cfg method=tproxy max=65535 probes=1024 ns=- tons=-'
+    cfg_d = 'cfg method=tproxy max=65535 probes=1024 ns=1.1.1.1,8.8.8.8 tons=-'
+    cases = [
+        ('udp-recv-error-then-data-and-close', 'udp', cfg_u,
+         [u % '01', 'sround 2', 'ssock 0 e 111', 'sround 0', u % '02', 'sround 1', 'tick %d' % (T + 1), 'caccept', 'sround 2',
+          u % '03', 'sround 2', 'ssock 1 d 5.6.7.8|99 aa', 'cdeliver']),
+        ('udp-recv-error-twice', 'udp', cfg_u,
+         [u % '01', 'sround 2', 'ssock 0 e 104', 'ssock 0 e 111', u % '02', 'sround 1', 'ssock 0 d 5.6.7.8|99 aa', 'cdeliver']),
+        ('dns-recv-error-then-late-reply', 'dns', cfg_d,
+         [q % '01', 'sround 1', 'ssock 0 e 111', 'sround 0', 'tick %d' % (T + 1), q % '02', 'sround 1', 'cdeliver']),
+    ]
+    for focus in ('udp', 'dns'):
+        for name, cfg, steps in E.corpus(focus):
+            if 'error' in name or 'retries' in name or 'no-free-id' in name:
+                cases.append((name, focus, cfg, steps))
+    for name, focus, cfg, steps in cases:
+        lg = E.execute('c08:' + name, cfg, steps, 0)
+        ctx.count()
+        ctx.mark(('dgram', name), True)
+        ctx.hist('directed:dgram-fault')
+        for v in lg.violations:
+            k = v['key']
+            if 'raised' in k or 'died' in k or 'dead' in k:
+                ctx.violation('C08:dgram:' + k.split(':', 1)[1],
+                              case=dict(kind='dgram', name=name, focus=focus, cfg=cfg, steps=list(steps)),
+                              expected='a fault in a UDP/DNS flow ends at most that flow; client and server keep running',
+                              observed=dict(observed=v.get('observed'), at_step=v.get('line')))
+                break
+
+
 def reset_in_same_round(ctx, rng, which):
     """A flow's endpoint resets in the SAME select round in which traffic of another flow arrives on the mux, with
     the faulty flow already half-closed by its peer: one real ssnet.runonce must survive it and the neighbour's
@@ -345,6 +383,7 @@ def reset_in_same_round(ctx, rng, which):
 def run(ctx):
     rng = ctx.rng
     directed(ctx)
+    dgram_faults(ctx)
     all_in, all_out = [], []
     for which in ('s', 'c'):
         ins, outs = reset_in_same_round(ctx, rng, which)
@@ -372,6 +411,11 @@ def run(ctx):
 
 def replay(ctx, rep):
     case = rep['case']
+    if case.get('kind') == 'dgram':
+        c2 = type(ctx)(ctx.prop_id, 'quick', 0)
+        dgram_faults(c2)
+        hit = [v for v in c2.violations if v['key'] == rep.get('key')]
+        return bool(hit), (str(hit[0]['observed'])[:300] if hit else 'both processes keep running')
     if case.get('kind') in ('exhaust', 'server-proxy'):
         c2 = type(ctx)(ctx.prop_id, 'quick', 0)
         directed(c2)
